@@ -201,6 +201,13 @@ func Cleanup(pipe *pubsub.Queue[fun.Worker], timeout time.Duration) *Service {
 
 			ec := &erc.Collector{}
 
+			// the pipe is closed by now (Shutdown has returned):
+			// collect the jobs that were accepted but that Run
+			// had not moved to the cache when its context ended.
+			for item, ok := pipe.Remove(); ok; item, ok = pipe.Remove() {
+				cache.PushBack(item)
+			}
+
 			ec.Add(itertool.ParallelForEach(ctx, cache.PopIterator(),
 				func(ctx context.Context, wf fun.Worker) error {
 					ec.Add(wf.WithRecover().Run(ctx))
